@@ -37,8 +37,12 @@ def _quiet(*a, **k):
 
 
 def cut(script, scheduler):
-    """(array range or None, python program with the task variable replaced by TASK)"""
+    """(array range or None, python program with the task variable replaced by TASK, directory the script changes
+    into before it launches the program or None)"""
     lines = script.split("\n")
+    cds = [ln[3:].strip() for ln in lines if ln.startswith("cd ")]
+    if len(cds) > 1:
+        raise ValueError("more than one cd")
     if not lines[0].startswith("#!/bin/bash"):
         raise ValueError("no shebang")
     rng = None
@@ -60,10 +64,12 @@ def cut(script, scheduler):
     prog = prog.replace(TASKVAR[scheduler], "TASK")
     if "$" in prog:
         raise ValueError("unexpanded shell variable left in the program")
-    return rng, prog
+    if cds and script.index("\ncd " + cds[0]) > start:
+        raise ValueError("cd after the here-document")
+    return rng, prog, (cds[0] if cds else None)
 
 
-def body_script(E, sched, single, B, f1, f2, f3, f4, ask, q1, q2, q3, q4, tau, opt, nw, base):
+def body_script(E, sched, single, B, f1, f2, f3, f4, ask, q1, q2, q3, q4, tau, opt, nw, base, rel=False):
     scheduler = SCHED[concretize(sched, 0, 2)]
     single = cbool(single)
     B = concretize(B, 1, 4)
@@ -78,7 +84,19 @@ def body_script(E, sched, single, B, f1, f2, f3, f4, ask, q1, q2, q3, q4, tau, o
     per = 2 if nw else 1                 # two settings per batch when the script asks for worker processes
     with E() as env:
         ref = combo_runner(fn, grid(B * per), verbosity=0)
-        crop = cp.Crop(fn=fn, name="t", parent_dir=env.parent, batchsize=per)
+        parent = env.parent
+        if cbool(rel):
+            # the crop lives in a directory given relative to the directory the user works in; the scheduler starts
+            # the job somewhere else (the script has to find the crop whatever its own start directory)
+            import os as _os
+
+            if env.mode == "sym":
+                env.fs.cwd = _os.getcwd()      # pathlib (used by gen_cluster_script) resolves against the real cwd
+                env.fs.makedirs(_os.getcwd(), exist_ok=True)
+            else:
+                env.chdir(env.parent)
+            parent = "runs"
+        crop = cp.Crop(fn=fn, name="t", parent_dir=parent, batchsize=per)
         crop.sow_combos(grid(B * per), verbosity=0)
         for i in fin:
             cp.grow(i, crop=crop, verbosity=0)
@@ -94,7 +112,17 @@ def body_script(E, sched, single, B, f1, f2, f3, f4, ask, q1, q2, q3, q4, tau, o
             opts.update(num_procs=2)
         script = crop.gen_cluster_script(scheduler, batch_ids=tuple(asked) if ask else None,
                                          mode="single" if single else "array", conda_env=False, **opts)
-        rng, prog = cut(script, scheduler)
+        rng, prog, cd = cut(script, scheduler)
+        abs_parent = env.parent
+        if cbool(rel):
+            import os as _os
+
+            abs_parent = _os.path.join(_os.getcwd(), "runs")
+            if env.mode == "sym":
+                env.fs.makedirs("/elsewhere", exist_ok=True)
+            env.chdir("/elsewhere" if env.mode == "sym" else "/")      # where the scheduler starts the job
+        if cd is not None:
+            env.chdir(cd)                                             # the script's own `cd`
         want = list(asked) if ask else [i for i in range(1, B + 1) if i not in fin]
         code = compile(prog, "<generated cluster script>", "exec")      # SyntaxError => refutation
         grown = []
@@ -148,7 +176,7 @@ def body_script(E, sched, single, B, f1, f2, f3, f4, ask, q1, q2, q3, q4, tau, o
                     return False
         # really growing what the scripts grow makes the crop ready, with exact results
         env._set(cp, "grow", real_grow)
-        c2 = cp.Crop(name="t", parent_dir=env.parent)
+        c2 = cp.Crop(name="t", parent_dir=abs_parent)
         for i in want:
             kw = dict(grow_kw.get(i, {}))
             if kw and env.mode == "real":
@@ -222,6 +250,13 @@ CONDS = (
     + split_conds(_G, "script4", body_script, _SIG.replace("B:int ", ""),
                   ["1 <= tau <= 4 and opt == 0 and nw == 0"], "sched", [0, 1, 2], fixed=dict(B=4), timeout=1800,
                   tiers=("thorough",), bounds="as script with B=4 batches")
+    + [make_cond(_G, "script_relative", body_script, "sched:int single:bool f1:bool tau:int base:int",
+                 ["0 <= sched <= 2 and 1 <= tau <= 2"],
+                 fixed=dict(B=2, f2=False, f3=False, f4=False, ask=False, q1=False, q2=False, q3=False, q4=False,
+                            opt=0, nw=0, rel=True), timeout=300,
+                 bounds="crop created with a RELATIVE parent directory ('runs'), job started in another directory; "
+                        "the script's `cd` line is honoured: each scheduler x mode x task index grows the intended "
+                        "batch of that crop")]
     + [make_cond(_G, "cli", body_cli, "B:int f1:bool f2:bool f3:bool base:int", ["1 <= B <= 3"], timeout=300,
                  bounds="xyzpy-grow command line (crop named 'xy-z') on crops of B<=3 batches with every proper finished subset: grows "
                         "exactly the missing batches, crop ready, exact results")]
